@@ -199,8 +199,14 @@ def run_case_entry(arg):
 def _reset_globals():
     """Module-level state of the library that a previous run in the same child may have advanced."""
     gp = sys.modules.get("goodwe.protocol")
-    if gp is not None and hasattr(gp, "_modbus_tcp_tx"):
+    cur = getattr(gp, "_modbus_tcp_tx", None) if gp is not None else None
+    if isinstance(cur, int) and not isinstance(cur, bool):
         gp._modbus_tcp_tx = 0
+    elif cur is not None and hasattr(cur, "set"):
+        try:
+            cur.set(0)   # the counter kept in a ContextVar-like holder
+        except Exception:  # noqa
+            pass
 
 
 def _slim(res, index):
